@@ -152,12 +152,18 @@ fn dec(case: &str) -> Option<Vec<Op>> {
     Some(ops)
 }
 
+fn code_char_ok(idx: i64) -> bool {
+    (128..=0x10FFFE).contains(&idx) && !(0xD800..=0xDFFF).contains(&idx)
+}
+
 fn var_ok(kind: i64, idx: i64) -> bool {
     match kind {
         0..=2 => (0..32768).contains(&idx),
         3 => (0..256).contains(&idx),
-        4 => CODE_CHARS.contains(&idx) || idx == 91 || idx == 93,
-        5 => CODE_CHARS.contains(&idx),
+        // code tables are indexed by the full character code: any character that does not occur in a program
+        // (ASCII: only `| ! :` and, for \catcode, the brackets), up to U+10FFFE, surrogates excluded
+        4 => CODE_CHARS.contains(&idx) || idx == 91 || idx == 93 || code_char_ok(idx),
+        5 => CODE_CHARS.contains(&idx) || code_char_ok(idx),
         6 => (0..PARAM_NAMES.len() as i64).contains(&idx),
         _ => false,
     }
@@ -244,6 +250,8 @@ fn var_tex(kind: i64, idx: i64) -> String {
         1 => format!("\\dimen{idx} "),
         2 => format!("\\skip{idx} "),
         3 => format!("\\toks{idx} "),
+        4 if idx >= 128 => format!("\\catcode{idx} "),
+        5 if idx >= 128 => format!("\\mathcode{idx} "),
         4 => format!("\\catcode`\\{}", idx as u8 as char),
         5 => format!("\\mathcode`\\{}", idx as u8 as char),
         _ => format!("\\{} ", PARAM_NAMES[idx as usize]),
@@ -1029,6 +1037,7 @@ fn exhaustive_pairs() -> Vec<(&'static str, GT, GT, bool)> {
         ("active-def,active-def", GT::Cmd(1, 0, 0), GT::Cmd(1, 1, 0), false),
         ("font,count", GT::Font, GT::Var(0, 1), false),
         ("active-gdef,cs-chardef", GT::Cmd(1, 0, 1), GT::Cmd(0, 0, 2), false),
+        ("catcode c, catcode c+256", GT::Var(4, 124), GT::Var(4, 380), false),
         ("toks,dimen", GT::Var(3, 1), GT::Var(1, 1), false),
         ("skip,catcode", GT::Var(2, 3), GT::Var(4, 124), false),
         ("globaldefs,count", GT::Var(6, 0), GT::Var(0, 1), false),
@@ -1038,6 +1047,10 @@ fn exhaustive_pairs() -> Vec<(&'static str, GT, GT, bool)> {
         ("cs-mathchardef,active-toksdef", GT::Cmd(0, 2, 5), GT::Cmd(1, 0, 6), true),
         ("cs-let-font,year", GT::Cmd(0, 3, 7), GT::Var(6, 2), false),
         ("cs-long-def,active-outer-long-def", GT::Cmd(0, 0, 9), GT::Cmd(1, 0, 10), false),
+        ("count i, count i+256", GT::Var(0, 1), GT::Var(0, 257), false),
+        ("mathcode c, mathcode c+65536", GT::Var(5, 33), GT::Var(5, 65569), false),
+        ("catcode U+10FFFE, catcode U+10FFFE-65536", GT::Var(4, 0x10FFFE), GT::Var(4, 0x10FFFE - 65536), false),
+        ("dimen i, dimen i+512", GT::Var(1, 2), GT::Var(1, 514), false),
     ]
 }
 
@@ -1078,12 +1091,34 @@ fn random_program(r: &mut Rng) -> Vec<Op> {
     // a small pool of hot targets so that the same target is hit again and again
     let all_vars: Vec<(i64, i64)> = vec![
         (0, 1), (0, 2), (0, 300), (1, 1), (1, 2), (2, 1), (2, 9), (3, 1), (3, 2), (3, 255), (4, 124), (4, 33), (5, 58), (5, 124),
-        (6, 1), (6, 2), (6, 3), (0, 32767), (0, 0), (3, 0), (1, 0), (2, 32767),
+        (6, 1), (6, 2), (6, 3), (0, 32767), (0, 0), (3, 0), (1, 0), (2, 32767), (4, 380), (4, 65660), (5, 289), (4, 0x10FFFE), (5, 0x10FF00), (0, 257), (1, 256),
     ];
     let all_cmds: Vec<(i64, i64)> = vec![(0, 0), (0, 1), (0, 2), (0, 3), (1, 0), (1, 1)];
     let mut pool = Pool { vars: vec![], cmds: vec![] };
     for _ in 0..r.range(1, 3) {
         pool.vars.push(*r.pick(&all_vars));
+    }
+    if r.chance(1, 3) {
+        // congruence mode: variables of one kind whose indices differ by multiples of 256 / 65536 (any key that
+        // keeps only part of the index confuses them), hot together in the same groups
+        let kind = *r.pick(&[0i64, 1, 2, 4, 4, 5]);
+        let (base, max) = match kind {
+            0..=2 => (*r.pick(&[0i64, 1, 2, 44, 255]), 32767i64),
+            _ => (*r.pick(&[124i64, 33, 58, 380, 200, 255]), 0x10FFFEi64),
+        };
+        pool.vars.clear();
+        pool.vars.push((kind, base));
+        for _ in 0..r.range(1, 3) {
+            let step = *r.pick(&[256i64, 256, 512, 65536, 65536 + 256, 0x100000, 4096]);
+            let idx = base + step * r.range(1, 3);
+            let idx = if idx > max { base + 256 * r.range(1, 100) } else { idx };
+            if var_ok(kind, idx) && !pool.vars.contains(&(kind, idx)) {
+                pool.vars.push((kind, idx));
+            }
+        }
+        if kind >= 4 && r.chance(1, 2) {
+            pool.vars.push((kind, 0x10FFFE - 256 * r.range(0, 2)));
+        }
     }
     for _ in 0..r.range(1, 3) {
         pool.cmds.push(*r.pick(&all_cmds));
@@ -1327,8 +1362,8 @@ impl Property for C01 {
          \\endlinechar \\globaldefs \\year \\month, \\def \\gdef \\let \\countdef \\toksdef \\chardef \\mathchardef of control sequences \
          and active characters, font selectors, reads). Order: corpus files, built-in witnesses, exhaustive (every sequence up to length \
          4 (quick; 3 for the last 7 pairs) / 5 (thorough; 4 for the last 7 pairs) over 2 targets x 2 values x {local, global} + `{` + `}` \
-         with both targets read after every op, for 13 pairs of target kinds; and every sequence up to length 5 (quick) / 6 (thorough; 7 for \
-         \\count) over 1 target x 2 values x {local, global} + `{` + `}` for 8 target kinds; every sequence up to length 5 (4) / 6 over 1 register x {direct name, alias} x {local, global} + `{` + `}` for \\count via \\countdef, \\toks via \\toksdef on an active character, \\count via \\multiply/\\advance; a `}` with no group open only as the last op), surface items (every sequence up to length 4 over 12 items, thorough also length 5 over 9 of them: `{ } [ ]`, local/global \\catcode of the brackets to 1/2/12, \\let of a name to a bracket, that name used as a command; \\count1 read and locally reassigned after each); random programs (8..60 ops + reads, depth <= 8, a pool of 2-6 hot targets, \
+         with both targets read after every op, for 19 pairs of target kinds (among them pairs of one kind whose indices are congruent mod 256 / 65536: \\count, \\dimen, \\catcode and \\mathcode up to U+10FFFE); and every sequence up to length 5 (quick) / 6 (thorough; 7 for \
+         \\count) over 1 target x 2 values x {local, global} + `{` + `}` for 8 target kinds; every sequence up to length 5 (4) / 6 over 1 register x {direct name, alias} x {local, global} + `{` + `}` for \\count via \\countdef, \\toks via \\toksdef on an active character, \\count via \\multiply/\\advance; a `}` with no group open only as the last op), surface items (every sequence up to length 4 over 12 items, thorough also length 5 over 9 of them: `{ } [ ]`, local/global \\catcode of the brackets to 1/2/12, \\let of a name to a bracket, that name used as a command; \\count1 read and locally reassigned after each); random programs (8..60 ops + reads, depth <= 8, a pool of 2-6 hot targets (in a third of the programs: variables of one kind with indices congruent mod 256 / 65536, code tables over the whole character range), \
          20-60% of assignments \\global (1-3 times), half of the \\def/\\gdef with a random run of \\global \\long \\outer in any order, \\globaldefs assigned in a quarter of them; in half of them (alias mode) the \\count/\\toks registers of the pool get 1-2 aliases up front, more \\countdef/\\toksdef/\\let-copies during the run (local and global, redefined to other registers), and 2/3 of the assignments and many reads go through a current alias; in a quarter (delimiter mode) a third of the items are characters `{ } [ ]` typed as such, \\catcode assignments that make the brackets group delimiters or not, \\let of names to those characters, and names used as commands). Non-trivial: an assignment inside a group is \
          followed by a read."
             .into()
@@ -1436,7 +1471,7 @@ impl Property for C01 {
         // two targets
         for (pi, (_, t1, t2, setup)) in exhaustive_pairs().into_iter().enumerate() {
             let alpha = alphabet(t1, t2);
-            let maxlen = match (ctx.thorough, pi < 6) {
+            let maxlen = match (ctx.thorough, pi < 7) {
                 (true, true) => 5,
                 (true, false) => 4,
                 (false, true) => 4,
